@@ -484,6 +484,14 @@ impl BinCtx {
                 self.h.l1.out.push(format!("OP mark bootocc n={n} k={k} src={src} exited={} served={}", exited as u8, if exited { 0 } else { served }));
                 self.h.l1.out.push("R mark".into());
             }
+            ["usebin", "release"] => {
+                // from here on the executable is the release build (when the engine has built one)
+                if let Ok(b) = std::env::var("TSS_SERVER_BIN_RELEASE") {
+                    if !b.is_empty() { self.bin = b; }
+                }
+                self.h.l1.out.push("OP mark usebin release".into());
+                self.h.l1.out.push("R mark".into());
+            }
             ["stall", n] => {
                 // N uploads in flight at once: on N further connections the head of an upload (add-version and
                 // add-snapshot alternately, clients nobody else uses) and the first byte of its 64-byte body are
